@@ -229,6 +229,29 @@ def handle (op : String) (fs : List (String × String)) : String :=
       | some ls => s!"k={Spec.leastNumberOfHMetrics ws};w={digest ws};lsb={digest ls}"
       | none => "n/a"
     | _, _, _ => "bad-case"
+  else if op == "metrics.hmtxtrunc" then
+    -- D: an hmtx body must hold `k` whole long records (4 bytes) followed by whole int16 bearings:
+    -- otherwise it is refused; if accepted, both vectors have the full length k + (L - 4k)/2
+    match getHex fs "hhea", getHex fs "hmtx" with
+    | some hhea, some body =>
+      let k := rdU16 hhea 34
+      let l := body.length
+      if l = 0 then (if k = 0 then "full:0" else "refused")
+      else if l < 4 * k || (l - 4 * k) % 2 != 0 then "refused"
+      else s!"full:{k + (l - 4 * k) / 2}"
+    | _, _ => "bad-case"
+  else if op == "metrics.maxprt" then
+    -- D: Read (Encode info) = info, in particular a present TrueType part stays present
+    match getInt fs "n", (getField fs "ttf").bind parseInts with
+    | some n, some ttf =>
+      if 1 ≤ n && n < 65536 && (match ttf with | some v => v.length == 13 && v.all (fun x => 0 ≤ x && x < 65536) | none => true)
+      then s!"ok:{n};" ++ (match ttf with | some v => intsToString v | none => "-")
+      else "n/a"
+    | _, _ => "bad-case"
+  else if op == "metrics.postrt" then
+    match getInt fs "angle", getInt fs "upos", getInt fs "uthick", getBool fs "fixed" with
+    | some a, some up, some ut, some fx => s!"ok:196608;{a},{up},{ut},{showBool fx}"
+    | _, _, _, _ => "bad-case"
   else if op == "metrics.hmtxdec" then
     match getHex fs "hhea", getHexOpt fs "hmtx" with
     | some hhea, some hmtx =>
